@@ -2,7 +2,7 @@
 TLC model-checks the bounded model and emits every transition; the Go driver executes
 them (and random walks / shortest paths over the emitted graph) against the real witness
 over the chosen stores and size embeddings; TLC judges the recorded trace."""
-import json, os, random, collections
+import json, os, random, collections, hashlib
 from vlib import *
 
 ALL_BAD = {"flip", "drop", "add", "random", "short"}
@@ -70,8 +70,8 @@ def execute(work, rep, c, runs, stores, embeds, seed, http=False, keyof=None, ta
 
 
 def index_trace(trace_path):
-    """trace line number (1-based, as the judge's cursor) -> event"""
-    return read_ndjson(trace_path)
+    """trace line number (1-based, as the judge's cursor) -> event (lazily read)"""
+    return TraceIndex(trace_path)
 
 
 def settle(rep, prop, fails, events, c, extra_replay=None):
@@ -109,13 +109,15 @@ def settle(rep, prop, fails, events, c, extra_replay=None):
 
 
 def count_events(rep, events, nontrivial):
-    ups = [e for e in events if e.get("e") in ("update", "get", "getlogs")]
-    rep.cov["evaluations"] += len(ups)
-    rep.cov["traces_validated_against_impl"] += sum(1 for e in events if e.get("e") == "reset")
     seen = rep.cov.setdefault("_distinct", set())
-    for e in ups:
-        if nontrivial(e):
-            seen.add(json.dumps([e.get("e"), e.get("req"), e.get("v"), e.get("stored"), e.get("log")], sort_keys=True))
+    for e in events:
+        k = e.get("e")
+        if k == "reset":
+            rep.cov["traces_validated_against_impl"] += 1
+        if k in ("update", "get", "getlogs", "getodd"):
+            rep.cov["evaluations"] += 1
+            if nontrivial(e):
+                seen.add(hashlib.sha1(json.dumps([k, e.get("req"), e.get("v"), e.get("stored"), e.get("log"), e.get("cls")], sort_keys=True).encode()).digest()[:10])
 
 
 def finish_counts(rep):
